@@ -1,6 +1,11 @@
 use std::cell::Cell;
 use std::ptr;
+#[cfg(not(multiqueue2_verif))]
 use std::sync::atomic::{fence, AtomicPtr, AtomicUsize, Ordering};
+#[cfg(multiqueue2_verif)]
+use crate::verif_hooks::{fence, AtomicPtr, AtomicUsize};
+#[cfg(multiqueue2_verif)]
+use std::sync::atomic::Ordering;
 
 use crate::alloc;
 use crate::consume::CONSUME;
@@ -316,6 +321,26 @@ impl ReadCursor {
         unsafe {
             let current_group = &*self.readers.load(CONSUME);
             current_group.readers.is_empty()
+        }
+    }
+}
+
+#[cfg(multiqueue2_verif)]
+impl ReadCursor {
+    pub fn verif_addr(&self) -> usize {
+        self.readers.verif_addr()
+    }
+}
+
+#[cfg(multiqueue2_verif)]
+impl Reader {
+    /// Addresses of the stream cursor and of the stream's consumer count
+    pub fn verif_addrs(&self) -> (usize, usize) {
+        unsafe {
+            (
+                (*self.pos).pos_data.verif_addr(),
+                (*self.meta).num_consumers.verif_addr(),
+            )
         }
     }
 }
